@@ -175,6 +175,8 @@ class TF(_BaseFuture):
             return r
 
     def done(self):
+        if role().startswith("resolver"):
+            perturb("done")          # stretches the resolver's pass over its wait list (completions may land inside a pass)
         with LOCK:
             r = super().done()
             if r or not role().startswith("disp"):
@@ -572,6 +574,11 @@ def main():
                         if time.monotonic() - t0 > scen.get("await_timeout", 0.35 * scen.get("timeout", 25)):
                             # the awaited future is not finishing (lost_future oracle judges that): go on with the script
                             rec["gave_up"] = True
+                            rec["i"] = cmd["i"]
+                            # which of its inputs were finished, and for how long the last one has been (starvation probe)
+                            deps = [j for j in scen.get("_deps", {}).get(str(cmd["i"]), []) if futs.get(j) is not None]
+                            rec["inputs_done"] = [bool(BaseDone(futs[j])) for j in deps]
+                            rec["awaited_for"] = time.monotonic() - t0
                             break
                         time.sleep(0.0005)
             elif c == "shutdown":
